@@ -83,6 +83,12 @@ POSITIONS = [
     ('subquery_same_integration_as_probe', 'SELECT * FROM {A}.t2 WHERE id IN (SELECT t1.id FROM int1.t1 JOIN {A}.t2 AS u ON t1.id = u.id)', ['t2', 't1', 't2']),
 ]
 
+# a qualifier that is no integration and no project of the catalog at hand is a schema of the default namespace: (sql, table, parts kept)
+UNKNOWN_QUALIFIER = [('SELECT * FROM proj.tbl', 'tbl', ['proj', 'tbl']), ('SELECT * FROM int2.t2 JOIN proj.tbl ON t2.id = tbl.id', 'tbl', ['proj', 'tbl']),
+                     ('SELECT * FROM sch.tbl WHERE id IN (SELECT id FROM int2.t2)', 'tbl', ['sch', 'tbl']), ('SELECT * FROM pageviews.tbl JOIN int2.t2 ON t2.id = tbl.id', 'tbl', ['pageviews', 'tbl'])]
+BARE = ['SELECT * FROM int2.t2 JOIN pred ON t2.id = pred.id', 'SELECT * FROM pred JOIN int2.t2 ON t2.id = pred.id', 'SELECT * FROM int2.t2 WHERE id IN (SELECT id FROM pred)',
+        'SELECT * FROM int2.t2 JOIN pred', 'SELECT * FROM int2.t2 JOIN int1.t1 ON t1.id = t2.id JOIN pred ON pred.id = t1.id']
+
 MODEL_POSITIONS = [
     ('join_model', 'SELECT * FROM int1.t1 JOIN {M}.pred', ['t1'], [('pred', None)]),
     ('join_model_version', 'SELECT * FROM int1.t1 JOIN {M}.pred.3', ['t1'], [('pred', '3')]),
@@ -170,6 +176,22 @@ def plan_shape(plan):
     return out
 
 
+def role_swap_prelude(names=('int1', 'int2', 'proj', 'mindsdb', 'sch', 'pred', 'pageviews', 'datafiles')):
+    """planners built earlier in the process over catalogs in which the same names play other roles (every name a project; every
+    name a data integration): what a name is must come from the catalog of the planner at hand"""
+    from mindsdb_sql import parse_sql
+    from mindsdb_sql.planner.query_planner import QueryPlanner
+    import copy as _copy
+    cats = [dict(integrations=[{'name': n, 'type': 'project'} for n in names], predictor_metadata=[dict(name='t1', integration_name='int1'), dict(name='tbl', integration_name='proj')]),
+            dict(integrations=[{'name': n, 'type': 'data'} for n in names], default_namespace=names[0])]
+    for c in cats:
+        for sql in ('SELECT * FROM int1.t1 JOIN int2.t2 ON t1.id = t2.id', 'SELECT * FROM proj.tbl', 'SELECT * FROM int1.t1 JOIN proj.tbl'):
+            try:
+                QueryPlanner(**_copy.deepcopy(c)).from_query(parse_sql(sql))
+            except Exception:
+                pass
+
+
 class CHECK(Check):
     pid = 'C10'
     level = 'exploration'
@@ -182,16 +204,63 @@ class CHECK(Check):
     def cases(self):
         out = []
         for (pl, tpl, tabs), sp, cat in itertools.product(POSITIONS, SPELL, CATALOGS):
-            out.append(('table', pl, sp, cat, 'mindsdb'))
+            out.append(('table', pl, sp, cat, 'mindsdb' if catalog(cat, 'mindsdb') is not None else 'proj'))
         for (pl, tpl, tabs, models), sp, cat, proj in itertools.product(MODEL_POSITIONS, SPELL, CATALOGS, ('mindsdb', 'proj')):
             if catalog(cat, proj) is not None:
                 out.append(('model', pl, sp, cat, proj))
+        # the same probes after planners over other catalogs (same names, other roles) were used in the process
+        for (pl, tpl, tabs), cat in itertools.product(POSITIONS, CATALOGS):
+            out.append(('table@history', pl, 'lower', cat, 'mindsdb' if catalog(cat, 'mindsdb') is not None else 'proj'))
+        for (pl, tpl, tabs, models), cat, proj in itertools.product(MODEL_POSITIONS, CATALOGS, ('mindsdb', 'proj')):
+            if catalog(cat, proj) is not None:
+                out.append(('model@history', pl, 'lower', cat, proj))
+        # a bare table name that coincides with a model of the main project, default namespace = a data integration
+        for i in range(len(BARE)):
+            for cat in ('names_default_int1', 'legacy_dict_default_int1'):
+                out.append(('bare', i, 'lower', cat, 'proj' if cat.startswith('legacy') else 'mindsdb'))
+        for i in range(len(UNKNOWN_QUALIFIER)):
+            for hist in (False, True):
+                out.append(('unknown_qualifier', i, 'lower', 'names_default_int1', hist))
         return out
+
+    def run_bare(self, res, i, cat, proj):
+        """`pred` written without qualifier resolves to the default namespace (a data integration here): it is a table of int1, whatever
+        models the projects own - no apply-predictor step, and it is fetched from int1"""
+        sql = BARE[i]
+        self.after_other_catalogs = False
+        kw = catalog(cat, proj)
+        if kw is None:
+            return res
+        res.key((sql, cat))
+        k, plan = self.plan(sql, kw)
+        if k != 'plan':
+            res.count('bare_' + k)
+            return res
+        res.count('plans')
+        steps = list(all_steps(plan.steps))
+        for s_ in steps:
+            if isinstance(s_, (S.ApplyPredictorStep, S.ApplyPredictorRowStep, S.GetPredictorColumns)):
+                res.violation('bare-name-routed-to-a-model-although-it-resolves-to-the-default-data-integration',
+                              f'{sql!r} [{cat}]: {type(s_).__name__}(namespace={s_.namespace!r}); `pred` resolves to the default namespace int1, whose table it is\n    {plan.steps}')
+                return res
+        where = set()
+        for f in steps:
+            if isinstance(f, S.FetchDataframeStep) and f.query is not None:
+                leaves = []
+                table_leaves(f.query, leaves)
+                for leaf in leaves:
+                    if str(leaf.parts[-1]) == 'pred':
+                        where.add(str(f.integration).lower())
+        if where != {'int1'}:
+            res.violation('bare-name-not-fetched-from-the-default-namespace', f'{sql!r} [{cat}]: table pred is fetched from {sorted(where)}, expected int1\n    {plan.steps}')
+        return res
 
     def plan(self, sql, kwargs):
         out = parsing.outcome(sql, 'mindsdb')
         if out.kind != 'ok':
             return 'notparsed', out
+        if getattr(self, 'after_other_catalogs', False):
+            role_swap_prelude()
         try:
             return 'plan', plan_query(out.value, **kwargs)
         except (PlanningException, NotImplementedError) as e:
@@ -284,9 +353,33 @@ class CHECK(Check):
     def run(self, case):
         res = Result()
         kind, pl, sp, cat, proj = case
+        if kind == 'bare':
+            return self.run_bare(res, pl, cat, proj)
+        if kind == 'unknown_qualifier':
+            sql, tname, parts = UNKNOWN_QUALIFIER[pl]
+            self.after_other_catalogs = bool(proj)
+            res.key((sql, cat, proj))
+            k, plan = self.plan(sql, catalog(cat, 'mindsdb'))
+            if k != 'plan':
+                res.count('unknown_qualifier_' + k)
+                return res
+            res.count('plans')
+            found = []
+            for f in all_steps(plan.steps):
+                if isinstance(f, S.FetchDataframeStep) and f.query is not None:
+                    leaves = []
+                    table_leaves(f.query, leaves)
+                    found += [(str(f.integration).lower(), [str(x) for x in leaf.parts]) for leaf in leaves if str(leaf.parts[-1]) == tname]
+            if found != [('int1', parts)]:
+                res.violation('schema-qualified-table-of-the-default-namespace-routed-elsewhere' + ('|after-other-catalogs' if proj else ''),
+                              f'{sql!r} [{cat}]' + (' after planners over other catalogs were used' if proj else '') + f': table {tname} is fetched as {found}, expected from int1 as {".".join(parts)}\n    {plan.steps}')
+            return res
+        self.after_other_catalogs = kind.endswith('@history')
+        kind = kind.split('@')[0]
         if kind == 'table':
             tpl, tabs = next((t, tb) for l, t, tb in POSITIONS if l == pl)
             models = []
+            tpl = tpl.replace('mindsdb.pred', proj + '.pred')       # the model of the position lives in the catalog's project
             sql = tpl.replace('{A}', SPELL[sp]('int2'))
             base_sql = tpl.replace('{A}', 'int2')
             probe = 'JOIN {A}' in tpl or '{A}.t2 JOIN' in tpl
